@@ -257,6 +257,11 @@ class Gen:
                 d = {"kind": "unit_struct", "name": nm, "derive_default": r.random() < 0.5}
             defs.append(d)
             byname[nm] = d
+        if self.on("rec-cluster", 0.35):
+            which, cl = rec_cluster(r)
+            defs += cl
+            if r.random() < 0.5:      # the cluster's head also as a plain definition below a non-recursive root
+                defs.append(_st("RecTop", [_f("items", T("vec", t=T("ref", name=cl[0]["name"]))), _f("n", T("int", n="u8"))]))
         u = {"types": defs, "roots": []}
         u["roots"] = cover_roots(u)
         return u
@@ -671,6 +676,54 @@ def rs_expr(t, v):
     if k == "array":
         return "[%s]" % ", ".join(rs_expr(t["t"], x) for x in v)
     raise ValueError(k)
+
+
+# ---- clusters of mutually recursive types whose cycle passes through a BY-VALUE container (the schema loses the
+# Box of the origin, typify's break_cycles must re-introduce one): inline tuple, tuple struct, fixed array,
+# enum tuple / struct / newtype variants, newtype struct, nested tuple, a 3-cycle across struct / tuple struct / enum
+def _f(name, ty):
+    return {"name": name, "ty": ty, "rename": None, "default": False, "skip_none": False}
+
+
+def _v(name, kind, tys=(), fields=()):
+    return {"name": name, "rename": None, "kind": kind, "tys": list(tys), "fields": list(fields), "rename_all": None}
+
+
+def _st(name, fields, **kw):
+    d = {"kind": "struct", "name": name, "rename_all": None, "deny": False, "cdefault": False, "derive_default": False,
+         "fields": fields}
+    d.update(kw)
+    return d
+
+
+def rec_cluster(rng, which=None):
+    ref = lambda n: T("ref", name=n)
+    ob = lambda t: T("option", t=T("box", t=t))
+    sc = lambda: rng.choice([T("string"), T("int", n="u8"), T("bool"), T("int", n="i64")])
+    shapes = ["inline-tuple", "tuple-struct", "array", "enum-variants", "newtype-struct", "nested-tuple", "three-cycle"]
+    which = which or rng.choice(shapes)
+    if which == "inline-tuple":
+        return which, [_st("Chain", [_f("label", sc()), _f("next", ob(T("tuple", ts=[T("string"), ref("Chain")])))])]
+    if which == "tuple-struct":
+        return which, [{"kind": "tuple_struct", "name": "Edge", "tys": [sc(), ref("Vertex")], "derive_default": False},
+                       _st("Vertex", [_f("id", T("int", n="u32")), _f("out", ob(ref("Edge")))])]
+    if which == "array":
+        return which, [_st("Quad", [_f("kids", T("array", t=ob(ref("Quad")), n=rng.choice([1, 2, 3]))), _f("v", sc())])]
+    if which == "enum-variants":
+        tg = rng.choice([{"k": "external"}, {"k": "adjacent", "tag": "t", "content": "c"}])
+        bx = T("box", t=ref("Tree2"))
+        return which, [{"kind": "enum", "name": "Tree2", "tagging": tg, "rename_all": None, "deny": False,
+                        "variants": [_v("Leaf", "newtype", [sc()]), _v("Pair", "tuple", [bx, bx]), _v("Wrap", "newtype", [bx]),
+                                     _v("Node", "struct", fields=[_f("left", bx), _f("label", T("string"))])]}]
+    if which == "newtype-struct":
+        return which, [{"kind": "newtype", "name": "Nlink", "ty": ob(ref("Mnode")), "derive_default": False},
+                       _st("Mnode", [_f("n", ref("Nlink")), _f("v", sc())])]
+    if which == "nested-tuple":
+        return which, [_st("Nest", [_f("next", ob(T("tuple", ts=[T("tuple", ts=[sc(), ref("Nest")]), T("string")]))), _f("k", sc())])]
+    return which, [_st("Aring", [_f("b", ob(ref("Bring"))), _f("x", sc())]),
+                   {"kind": "tuple_struct", "name": "Bring", "tys": [ref("Cring"), sc()], "derive_default": False},
+                   {"kind": "enum", "name": "Cring", "tagging": {"k": "external"}, "rename_all": None, "deny": False,
+                    "variants": [_v("Stop", "unit"), _v("Go", "newtype", [ref("Aring")])]}]
 
 
 def generate(seed, n, profile=None):
@@ -1115,6 +1168,8 @@ def features(u):
                 fs.add("field-default-fn:" + strip_box(f["ty"])["k"])
     for d in u["types"]:
         fs.add("kind:" + d["kind"])
+        if d["name"] in ("Chain", "Edge", "Quad", "Tree2", "Nlink", "Nest", "Aring"):
+            fs.add("rec-cluster:" + d["name"])
         if d["kind"] == "struct":
             flds(d["fields"], "struct")
             if d["rename_all"]:
